@@ -314,32 +314,34 @@ var d8entries = []d8entry{
 }
 
 type d8 struct {
-	pkgs      []*Pkg
-	p         *Pkg
-	err       error
-	fn        string
-	ent       *d8entry
-	env       map[types.Object]*dloc
-	known     map[types.Object]bool // statically known bools / err != nil
-	scope     []string              // Lean variables in scope (root names), in order of introduction
-	stype     map[string]string     // their Lean types
-	wstack    []map[string]bool
-	ntmp      int
-	aux       []string // auxiliary top-level definitions (loops) emitted before the entry
-	loopK     func(post func() *dnode) *dnode
-	cont      func() *dnode // translation of `continue`
-	results   *types.Tuple
-	retK      func(vals []*dv) *dnode // inlined callee: what `return` does
-	loopVar   map[types.Object]string // for-i loops: index variable → bound expression it stays below
-	pv        map[string]string       // generated package-level byte constants (shared by all entries)
-	errTerm   map[types.Object]string // error variables holding a run-time error value
-	reader    string                  // root of the io.Reader parameter (its final state is part of every result)
-	optResult map[int]bool            // *big.Int results returned from a variable declared `var x *big.Int` (may be nil)
-	extCopies map[string]bool         // *ExtendedKey variables translated as values (no field writes allowed through them)
-	stubOK    bool                    // all parameters were understood (a typed stub can be emitted if the body fails)
-	inFold    int                     // depth of fold bodies being translated (no early exit possible there)
-	facts     map[string]bool         // "a≥b": known order facts between integer terms (dominating guards, max idiom)
-	lenDef    map[string]string       // Lean variable defined as `<bytes term>.length`
+	pkgs         []*Pkg
+	p            *Pkg
+	err          error
+	fn           string
+	ent          *d8entry
+	env          map[types.Object]*dloc
+	known        map[types.Object]bool // statically known bools / err != nil
+	scope        []string              // Lean variables in scope (root names), in order of introduction
+	stype        map[string]string     // their Lean types
+	wstack       []map[string]bool
+	ntmp         int
+	aux          []string // auxiliary top-level definitions (loops) emitted before the entry
+	loopK        func(post func() *dnode) *dnode
+	cont         func() *dnode // translation of `continue`
+	results      *types.Tuple
+	retK         func(vals []*dv) *dnode // inlined callee: what `return` does
+	loopVar      map[types.Object]string // for-i loops: index variable → bound expression it stays below
+	pv           map[string]string       // generated package-level byte constants (shared by all entries)
+	errTerm      map[types.Object]string // error variables holding a run-time error value
+	reader       string                  // root of the io.Reader parameter (its final state is part of every result)
+	byteVars     map[string]bool         // integer variables that hold a byte (width 8)
+	pendingFacts [][2]string             // operands of a max(...) just evaluated: the variable it is assigned to exceeds both
+	optResult    map[int]bool            // *big.Int results returned from a variable declared `var x *big.Int` (may be nil)
+	extCopies    map[string]bool         // *ExtendedKey variables translated as values (no field writes allowed through them)
+	stubOK       bool                    // all parameters were understood (a typed stub can be emitted if the body fails)
+	inFold       int                     // depth of fold bodies being translated (no early exit possible there)
+	facts        map[string]bool         // "a≥b": known order facts between integer terms (dominating guards, max idiom)
+	lenDef       map[string]string       // Lean variable defined as `<bytes term>.length`
 }
 
 func (d *d8) fail(n ast.Node, format string, a ...any) {
@@ -1206,6 +1208,15 @@ func (d *d8) call(x *ast.CallExpr, pre *[]*dnode) *dv {
 			return &dv{kind: "int", term: n}
 		case "panic":
 			return &dv{kind: "panic"}
+		case "max", "min":
+			if _, isBuiltin := d.p.info.Uses[id].(*types.Builtin); isBuiltin && len(x.Args) == 2 {
+				a, b := d.intTerm(x.Args[0], pre), d.intTerm(x.Args[1], pre)
+				_, w := d.kindOf(d.p.info.Types[x].Type)
+				if id.Name == "max" {
+					d.pendingFacts = append(d.pendingFacts, [2]string{a, b})
+				}
+				return &dv{kind: "int", term: "(" + id.Name + " " + a + " " + b + ")", width: w}
+			}
 		case "new":
 			l := d.lvalue(x, pre)
 			return &dv{kind: l.kind, term: l.read(), loc: l}
@@ -1801,6 +1812,11 @@ func (d *d8) simple(s ast.Stmt, pre *[]*dnode) bool {
 						d.known[o] = *v.known
 					}
 					if v.kind == "int" {
+						for _, pf := range d.pendingFacts {
+							d.facts[name+"≥"+pf[0]] = true
+							d.facts[name+"≥"+pf[1]] = true
+						}
+						d.pendingFacts = nil
 						if _, isIdent := st.Rhs[0].(*ast.Ident); isIdent {
 							d.facts[name+"≥"+v.term] = true
 						}
@@ -2366,6 +2382,53 @@ func (d *d8) stmts(list []ast.Stmt, k func() *dnode) *dnode {
 			d.aux = append(d.aux, sb.String())
 			return chain(pre, d.rt0(fmt.Sprintf("%s %s %s", aux, strings.Join(append(extraArgs(d.ent), params...), " "), xs.term)))
 		}
+		if xk, _ := d.kindOf(d.p.info.Types[st.X].Type); xk == "bytes" && st.Value != nil && st.Tok == token.DEFINE && !hasTerminator(st.Body.List) {
+			// for i, b := range bs : fold over the indices, b = bs[i] (the range expression is evaluated once, before)
+			kid, kIsId := st.Key.(*ast.Ident)
+			vid, vIsId := st.Value.(*ast.Ident)
+			if kIsId && vIsId {
+				xs := d.expr(st.X, &pre)
+				seqName := d.tmp("rng")
+				pre = append(pre, &dnode{kind: "let", name: seqName, term: xs.term})
+				d.declare(seqName, "bytes")
+				e, kn, sc, stp := d.snapshot()
+				au := d.saveAux()
+				idx := kid.Name
+				if idx == "_" {
+					idx = d.tmp("i")
+				} else {
+					d.env[d.p.info.Defs[kid]] = &dloc{root: idx, kind: "int"}
+				}
+				d.stype[idx] = "Nat"
+				var bpre []*dnode
+				bpre = append(bpre, &dnode{kind: "let", name: vid.Name, term: "(" + seqName + ".getD " + idx + " 0).toNat"})
+				d.declare(vid.Name, "int")
+				d.env[d.p.info.Defs[vid]] = &dloc{root: vid.Name, kind: "int"}
+				d.byteVars[vid.Name] = true
+				W := &[]string{}
+				d.wstack = append(d.wstack, map[string]bool{})
+				d.inFold++
+				body := chain(bpre, d.stmts(st.Body.List, func() *dnode { return &dnode{kind: "tuple", names: W} }))
+				d.inFold--
+				d.restore(e, kn, sc, stp)
+				d.facts, d.lenDef = au.facts, au.lenDef
+				w := d.wstack[len(d.wstack)-1]
+				d.wstack = d.wstack[:len(d.wstack)-1]
+				for n := range w {
+					if _, live := d.stype[n]; live {
+						*W = append(*W, n)
+					}
+				}
+				sort.Strings(*W)
+				for _, n := range *W {
+					d.wrote(n)
+				}
+				if len(*W) == 0 {
+					return chain(pre, next())
+				}
+				return chain(pre, &dnode{kind: "fold", names: W, term: "(List.range " + seqName + ".length)", name: idx, a: body, b: next()})
+			}
+		}
 		arr, isArr := d.p.info.Types[st.X].Type.Underlying().(*types.Array)
 		id, isId := st.Key.(*ast.Ident)
 		if !isArr || !isId || st.Value != nil || st.Tok != token.DEFINE || hasTerminator(st.Body.List) {
@@ -2833,6 +2896,16 @@ func (d *d8) ifStmt(st *ast.IfStmt, next func() *dnode) *dnode {
 			}
 		}
 	}
+	if as, ok := st.Init.(*ast.AssignStmt); ok && len(as.Rhs) == 1 {
+		if call, ok := as.Rhs[0].(*ast.CallExpr); ok {
+			if fn, _ := d.callee(call); fn != nil && (d.isFallibleEntry(fn) || fn.Name() == "ParsePubKey" || fn.Name() == "hmacCKD" || fn.Name() == "ParseCompactSignature") {
+				// if x, err := f(…); cond { … } with f handled as a statement form: the initialiser first, then the bare if
+				bare := *st
+				bare.Init = nil
+				return d.stmts([]ast.Stmt{as, &bare}, next)
+			}
+		}
+	}
 	if st.Init != nil {
 		if d.simple(st.Init, &pre) {
 			d.fail(st.Init, "if-initialiser outside the T8 subset")
@@ -3282,7 +3355,7 @@ func passDrivers(pkgs []*Pkg) (string, []string, []string) {
 			continue
 		}
 		d := &d8{pkgs: pkgs, p: p, fn: ent.key, ent: ent, env: map[types.Object]*dloc{}, known: map[types.Object]bool{}, stype: map[string]string{},
-			loopVar: map[types.Object]string{}, pv: pv, errTerm: map[types.Object]string{}, facts: map[string]bool{}, lenDef: map[string]string{}, extCopies: map[string]bool{}}
+			loopVar: map[types.Object]string{}, pv: pv, errTerm: map[types.Object]string{}, facts: map[string]bool{}, lenDef: map[string]string{}, extCopies: map[string]bool{}, byteVars: map[string]bool{}}
 		d.results = p.info.Defs[fd.Name].Type().(*types.Signature).Results()
 		var psig []string
 		var paramNames []string
